@@ -138,6 +138,14 @@ def special_graphs():
             I = [(0.03, 0.01), (0.02, 1.04), (-0.01, 2.03), (0.52, 2.71), (0.49, 3.77), (0.53, 4.72)]
         isl = {0: (I[0], [1]), 1: (I[1], [0, 2]), 2: (I[2], [1]), 3: (I[3], [4]), 4: (I[4], [3, 5]), 5: (I[5], [4])}
         yield (f"islands6-2way-{pos}", pos, isl)
+        if pos == "GENERIC":
+            # two approach roads (0->1 and 2->3) that re-converge in node 5 and continue 5->6->7; 0->1 passes closest to the first
+            # observation but continues far from the line between the observations, 2->3 is a bit further but continues along
+            # it; 8->9 is a third start candidate on a dead end; 3->4 a second good continuation (one-way roads)
+            A = [(0.0, -0.2), (4.0, 0.5), (-0.5, -1.0), (-0.5, 1.0), (-0.5, 4.0), (2.5, 5.0), (0.0, 8.0), (0.0, 12.0), (0.8, -1.0), (0.8, 1.0)]
+            app = {0: (A[0], [1]), 1: (A[1], [5]), 2: (A[2], [3]), 3: (A[3], [5, 4]), 4: (A[4], []), 5: (A[5], [6]), 6: (A[6], [7]), 7: (A[7], []),
+                   8: (A[8], [9]), 9: (A[9], [])}
+            yield ("approach10-1way-GENERIC", pos, app)
         # two feeder roads converging into a dead end, and a separate island nearby (jump target)
         if pos == "GRID":
             Fd = [(0.5, 0.0), (-0.5, 0.0), (0.0, 1.0), (0.0, 2.0), (0.5, 2.75), (0.5, 3.75), (0.5, 4.75)]
@@ -176,6 +184,9 @@ def axis_traces(graph):
         # cross8: two observations around the crossing, then a long gap to the last road
         return [[(0.0, -0.5), (0.0, 0.5), (0.2, 6.0)], [(0.05, -0.6), (0.02, 0.4), (0.21, 5.5)], [(0.0, -0.5), (0.2, 6.0)],
                 [(0.15, -0.5), (0.0, 0.5), (0.2, 3.5), (0.2, 6.5)]]
+    if len(graph) == 10 and tuple(graph[1][0]) == (4.0, 0.5):
+        # approach10: from the junction area to the far end, with and without an observation in between
+        return [[(0.0, 0.0), (0.0, 10.0)], [(0.0, 0.0), (0.5, 5.0), (0.0, 10.0)], [(0.2, -0.5), (0.0, 10.0)]]
     return []
 
 
